@@ -57,10 +57,15 @@ theorem C12_parent_reads_worker_obs (sizes : List (List Nat)) (m : Mem α)
 
 /-! ## actions -/
 
-/-- `PettingZooVecEnv.step`: sub-environment `i` receives exactly its own action of every agent -/
-theorem C12_action_transposition (dA : A) (n : Nat) (acts : List (List A)) (i a : Nat) (hi : i < n)
-    (row : List A) (x : A) (hrow : acts[a]? = some row) (hx : row[i]? = some x) :
-    ((transposeActs dA n acts)[i]?.bind (·[a]?)) = some x := by
+/-- `PettingZooVecEnv.step`: the list handed to worker `i` is column `i` of the action dict, i.e.
+    sub-environment `i` receives exactly its own action of every agent (and nobody else's) -/
+theorem C12_action_transposition (dA : A) (n : Nat) (acts : List (List A)) (i : Nat) (hi : i < n) :
+    (transposeActs dA n acts)[i]? = some (col dA acts i) ∧
+    (col dA acts i).length = acts.length ∧
+    ∀ (a : Nat) (row : List A) (x : A), acts[a]? = some row → row[i]? = some x →
+      ((transposeActs dA n acts)[i]?.bind (·[a]?)) = some x := by
+  refine ⟨by simp [transposeActs, List.getElem?_map, List.getElem?_range hi], by simp [col], ?_⟩
+  intro a row x hrow hx
   simp [transposeActs, col, List.getElem?_map, List.getElem?_range hi, hrow,
     List.getD_eq_getElem?_getD, hx]
 
